@@ -27,6 +27,32 @@ type actxFrame struct {
 	env   map[*ssa.Parameter]string // parameter → symbolic value in the caller (absent: a root)
 	depth int
 	memo  map[ssa.Value]string
+	// parameter → the argument value in the calling frame (for tracing a value to where it was made)
+	bind map[*ssa.Parameter]actxBinding
+}
+
+type actxBinding struct {
+	v  ssa.Value
+	fr *actxFrame
+}
+
+// origin follows a value through parameter bindings (and interface
+// re-wrappings) to the frame in which it was produced.
+func (fr *actxFrame) origin(v ssa.Value) (ssa.Value, *actxFrame) {
+	for i := 0; i < 8; i++ {
+		switch x := v.(type) {
+		case *ssa.Parameter:
+			if b, ok := fr.bind[x]; ok && b.fr != nil {
+				v, fr = b.v, b.fr
+				continue
+			}
+		case *ssa.ChangeInterface:
+			v = x.X
+			continue
+		}
+		break
+	}
+	return v, fr
 }
 
 func actxNewFrame(fn *ssa.Function, env map[*ssa.Parameter]string, depth int) *actxFrame {
@@ -45,12 +71,16 @@ func (fr *actxFrame) enter(call *ssa.CallCommon) *actxFrame {
 		return nil
 	}
 	env := map[*ssa.Parameter]string{}
+	bind := map[*ssa.Parameter]actxBinding{}
 	for i, p := range g.Params {
 		if i < len(call.Args) {
 			env[p] = fr.sym(call.Args[i])
+			bind[p] = actxBinding{call.Args[i], fr}
 		}
 	}
-	return actxNewFrame(g, env, fr.depth+1)
+	sub := actxNewFrame(g, env, fr.depth+1)
+	sub.bind = bind
+	return sub
 }
 
 // actxAllocValue: the alloc is a read-only copy of one value (a spilled
@@ -1303,4 +1333,111 @@ func (ef *actxEvalFrame) uncoveredReturn(hit actxHit) *ssa.Return {
 		}
 	}
 	return nil
+}
+
+// ---------------------------------------------------------------------------
+// emission of a cast instruction
+
+// actxInserters: the functions of the compiler package that append an
+// instruction they are handed to an instruction list: they have a parameter
+// of the instruction interface type and store into a field named
+// Instructions. Value: the index of that parameter.
+func actxInserters(c *Ctx) map[*ssa.Function]int {
+	out := map[*ssa.Function]int{}
+	sp := c.SSAPkg("homescript/compiler")
+	var instrT types.Type
+	if t := sp.Type("Instruction"); t != nil {
+		instrT = t.Type()
+	}
+	if instrT == nil {
+		return out
+	}
+	for _, fn := range actxAllFuncs(sp) {
+		idx := -1
+		for i, p := range fn.Params {
+			if types.Identical(p.Type(), instrT) {
+				idx = i
+			}
+		}
+		if idx < 0 || !actxStoresInstructions(fn) {
+			continue
+		}
+		out[fn] = idx
+	}
+	return out
+}
+
+func actxStoresInstructions(fn *ssa.Function) bool {
+	for _, b := range fn.Blocks {
+		for _, ins := range b.Instrs {
+			if st, ok := ins.(*ssa.Store); ok {
+				if fa, ok := st.Addr.(*ssa.FieldAddr); ok && actxFieldName(fa.X.Type(), fa.Field) == "Instructions" {
+					return true
+				}
+			}
+		}
+	}
+	return false
+}
+
+// actxCastEmitted: the instruction puts a CastInstruction into an instruction
+// list: a call of an inserter whose instruction argument is — traced through
+// the parameters of the helpers on the way — the conversion of a
+// CastInstruction value to the instruction interface, or the store of such a
+// value into the argument list of an append inside a function that writes an
+// Instructions field. The conversion itself is not an emission (an argument
+// built for a conditional emit helper is not emitted yet). Returns the
+// conversion and the frame it was made in.
+func actxCastEmitted(ef *actxEvalFrame, ins ssa.Instruction, castT types.Type, inserters map[*ssa.Function]int) (*ssa.MakeInterface, *actxFrame) {
+	if castT == nil {
+		return nil, nil
+	}
+	var cand ssa.Value
+	switch x := ins.(type) {
+	case ssa.CallInstruction:
+		if g := x.Common().StaticCallee(); g != nil {
+			if idx, ok := inserters[g]; ok && idx < len(x.Common().Args) {
+				cand = x.Common().Args[idx]
+			}
+		}
+	case *ssa.Store:
+		if ia, ok := x.Addr.(*ssa.IndexAddr); ok {
+			if _, isAlloc := ia.X.(*ssa.Alloc); isAlloc && actxStoresInstructions(ef.fr.fn) {
+				cand = x.Val
+			}
+		}
+	}
+	if cand == nil {
+		return nil, nil
+	}
+	v, fr := ef.fr.origin(cand)
+	if mi, ok := v.(*ssa.MakeInterface); ok && types.Identical(mi.X.Type(), castT) {
+		return mi, fr
+	}
+	return nil, nil
+}
+
+// actxCastTypeArgs: the symbolic values the CastInstruction behind the
+// conversion was built from (constructor arguments / fields of the literal).
+func actxCastTypeArgs(mi *ssa.MakeInterface, fr *actxFrame) []string {
+	var out []string
+	switch x := mi.X.(type) {
+	case *ssa.Call:
+		for _, a := range x.Call.Args {
+			out = append(out, fr.sym(a))
+		}
+	case *ssa.UnOp:
+		if al, ok := x.X.(*ssa.Alloc); ok && al.Referrers() != nil {
+			for _, r := range *al.Referrers() {
+				if fa, ok := r.(*ssa.FieldAddr); ok && fa.Referrers() != nil {
+					for _, r2 := range *fa.Referrers() {
+						if st, ok := r2.(*ssa.Store); ok && st.Addr == ssa.Value(fa) {
+							out = append(out, fr.sym(st.Val))
+						}
+					}
+				}
+			}
+		}
+	}
+	return out
 }
